@@ -229,7 +229,7 @@ func (sv *searchVars) searchList(s *slip.Scope, seq1, seq2 slip.List, depth int)
 	if sv.fromEnd {
 		last := seq1[len(seq1)-1]
 		for i := len(seq2) - 1; 0 <= i; i-- {
-			if i < len(seq1) {
+			if i < len(seq1)-1 {
 				break
 			}
 			v2 := seq2[i]
